@@ -18,3 +18,16 @@ TWINS = [
     T("lower-once-renamed", R, "    path_lower = path.lower()\n    mime_type, _ = mimetypes.guess_type(path_lower)", "    path_lower = path.lower()\n    mime_type, _enc = mimetypes.guess_type(path_lower)"),
     T("registry-membership-by-get", R, "    return ext if ext in _EXTRACTOR_REGISTRY else None", "    return ext if _EXTRACTOR_REGISTRY.get(ext) is not None else None"),
 ]
+
+# --- seeded changes kept under /verif/seeded (sub-agents saw only the property text); each must be reported by the named rule
+import os as _os
+from sa.selftest.harness import P as _P
+_SEEDS = _os.path.join(_os.path.dirname(_os.path.dirname(_os.path.dirname(_os.path.abspath(__file__)))), "seeded")
+SEEDED = [
+    ("C07-1", "C07-DOC"),
+    ("C07-2", "C07-TABLES"),
+    ("C07-3", "C07-USE"),
+    ("C07-4", "C07-SHAPE"),
+    ("C07-5", "C07-USE"),
+]
+MUTANTS = list(MUTANTS) + [_P("seed-" + sid, _os.path.join(_SEEDS, sid, "patch.diff"), rule) for sid, rule in SEEDED if _os.path.exists(_os.path.join(_SEEDS, sid, "patch.diff"))]
